@@ -143,7 +143,11 @@ def simulate_all(case, md, vals, species, extra, ds_labels, noise_seed=None):
     for i, lab in enumerate(ds_labels):
         g = COORDS[case["coords"]] if i == 0 or case.get("twin") else COORDS[case["coords"]][1:] + 3.0 * i
         labels = species + [e for e in extra if not e.endswith("_baseline") or e.startswith(lab)]
+        if case.get("square"):  # as many global points as clp labels (full model: as species)
+            g = np.array([600.0, 640.0, 690.0, 720.0, 760.0, 800.0])[: len(species) if case["mode"] == "full" else len(labels)] + 3.0 * i
         clp = None if case["mode"] == "full" else generating_clp(labels, g)
+        if clp is not None and case.get("clp_layout") == "label_first":
+            clp = clp.transpose("clp_label", "spectral")
         tc, gc = t.copy(), g.copy()
         kw = dict(noise=noise_seed is not None, noise_seed=noise_seed, noise_std_dev=0.01) if noise_seed is not None else {}
         data[lab] = simulate(model, lab, params, {"time": tc, "spectral": gc}, clp, **kw)
@@ -294,6 +298,15 @@ def run(run: core.Run):
             for f in (2.0, 0.01):
                 cases.append({"kinetics": kin, "irf": irf, "addon": "none", "mode": "full", "nds": nds, "scale": scale, "coords": coords,
                               "pset": 0, "noise": False, "axis_scale": f})  # fmt: skip
+    # square clp arrays (number of global points == number of clp labels), both layouts of the generating clp array
+    for kin, irf, addon in (("sequential", "none", "none"), ("parallel", "gaussian", "baseline"), ("decay", "none", "oscillation"), ("single", "none", "none")):
+        for mode in ("clp", "full"):
+            if mode == "full" and (addon != "none" or kin == "single"):
+                continue
+            for layout in ("global_first", "label_first") if mode == "clp" else ("global_first",):
+                for nds in (1, 2):
+                    cases.append({"kinetics": kin, "irf": irf, "addon": addon, "mode": mode, "nds": nds, "scale": nds == 2, "coords": "standard",
+                                  "pset": 0, "noise": False, "square": True, "clp_layout": layout})  # fmt: skip
     # one-column matrices, explicitly unlinked / linked groups, and twin datasets (same megacomplexes, irf and axes,
     # different initial concentration / megacomplex scale)
     for kin, irf, addon in itertools.product(("single", "sequential", "parallel", "decay"), ("none", "gaussian"), ("none", "baseline")):
